@@ -618,27 +618,74 @@ def check_cylindrical(ctx):
     app = [c for c in hv.calls() if isinstance(c.func, ast.Attribute) and c.func.attr == "append" and U(c.func.value) == "indices"]
     ok_sel = False
     if len(app) == 1:
-        conds = set()
-        for t, p in hsi.effective_guards(app[0]):
-            cp = compare_parts(t)
-            if cp is not None:
-                conds.add((U(hv.expand(cp[0], app[0], allow_mutated=True, stop=("object_slices", "labels", "mask", "grid"))), type(cp[1]).__name__, U(cp[2]), p))
+        from ..algebra import Converter as _Cv, Expr as _Ex, NotAlgebraic as _NA
+
         lpq = hsi.enclosing(app[0], (ast.For,))
-        lab = U(hv.expand(app[0].args[0], app[0]))
         if lpq is not None:
             lp_ = lpq[0]
             it = lp_.iter
-            one_based = False
-            sl_ok = False
-            if isinstance(it, ast.Call) and dotted(it.func) == "enumerate" and len(it.args) == 2 and U(it.args[0]) == "object_slices" and U(it.args[1]) == "1":
-                one_based = lab == U(lp_.target.elts[0])
-                slv = U(lp_.target.elts[1])
-                sl_ok = any(c in ((f"{slv}[0].start", "Eq", "0", True), (f"{slv}[0].start", "NotEq", "0", False)) for c in conds)
-            elif isinstance(it, ast.Call) and dotted(it.func) == "range" and U(it.args[0]) == "len(object_slices)":
-                iv = U(lp_.target)
-                one_based = lab.replace(" ", "") in (f"{iv}+1", f"1+{iv}")
-                sl_ok = any(c in ((f"object_slices[{iv}][0].start", "Eq", "0", True), (f"object_slices[{iv}][0].start", "NotEq", "0", False)) for c in conds)
-            ok_sel = one_based and sl_ok
+            # the number of clusters: len(object_slices) or the count returned by ndimage.label
+            counts = {"len(object_slices)"}
+            for s_ in hv.statements():
+                if isinstance(s_, ast.Assign) and isinstance(s_.targets[0], ast.Tuple) and len(s_.targets[0].elts) == 2 and isinstance(s_.value, ast.Call) and (hv.callee(s_.value) or "").endswith("ndimage.label"):
+                    counts.add(U(s_.targets[0].elts[1]))
+            # position (0-based) of the cluster whose radial slice is tested, as an expression in the loop variable
+            idx = pos = None
+            stop_names = ["object_slices", "labels", "mask", "grid"]
+            if isinstance(it, ast.Call) and dotted(it.func) == "enumerate" and it.args and U(it.args[0]) == "object_slices" and isinstance(lp_.target, ast.Tuple) and len(lp_.target.elts) == 2:
+                idx = U(lp_.target.elts[0])
+                k0 = it.args[1] if len(it.args) > 1 else (kwarg(it, "start") or ast.Constant(value=0))
+                elem = U(lp_.target.elts[1])
+                stop_names += [idx, elem]
+                pos_of = {elem: ast.BinOp(left=ast.Name(id=idx, ctx=ast.Load()), op=ast.Sub(), right=k0)}
+                full_cover = True
+            elif isinstance(it, ast.Call) and dotted(it.func) == "range" and isinstance(lp_.target, ast.Name) and 1 <= len(it.args) <= 2:
+                idx = lp_.target.id
+                stop_names += [idx]
+                pos_of = {}
+                lo_ = it.args[0] if len(it.args) == 2 else ast.Constant(value=0)
+                hi_ = it.args[-1]
+                full_cover = None  # decided below from the position expression
+            else:
+                idx = None
+            if idx is not None:
+                conds = []
+                for t, p in hsi.effective_guards(app[0]):
+                    cp = compare_parts(t)
+                    if cp is not None:
+                        conds.append((hv.expand(cp[0], app[0], allow_mutated=True, stop=tuple(stop_names)), type(cp[1]).__name__, U(cp[2]), p))
+                sel = None
+                for left, op, right, pol in conds:
+                    if right == "0" and ((op == "Eq" and pol) or (op == "NotEq" and not pol)) and isinstance(left, ast.Attribute) and left.attr == "start" \
+                            and isinstance(left.value, ast.Subscript) and U(left.value.slice) == "0":
+                        base = left.value.value  # the slices tuple of one cluster
+                        if isinstance(base, ast.Name) and base.id in pos_of:
+                            sel = pos_of[base.id]
+                        elif isinstance(base, ast.Subscript) and U(base.value) == "object_slices":
+                            sel = base.slice
+                lab = hv.expand(app[0].args[0], app[0], stop=tuple(stop_names))
+                if sel is not None:
+                    try:
+                        cv_ = _Cv()
+                        one_based = (cv_.conv(lab) - cv_.conv(sel)) == _Ex.const(1)
+                        if full_cover is None:
+                            class _At(ast.NodeTransformer):
+                                def __init__(self, val):
+                                    self.val = val
+
+                                def visit_Name(self, n_):
+                                    return copy.deepcopy(self.val) if n_.id == idx else n_
+
+                            import copy
+
+                            first = cv_.conv(_At(lo_).visit(copy.deepcopy(sel)))
+                            hi_txts = set()
+                            end_ = _At(hi_).visit(copy.deepcopy(sel))
+                            # the position one past the last iteration equals the number of clusters
+                            full_cover = first.is_zero() and any(cv_.conv(end_) == cv_.conv(ast.parse(c_, mode="eval").body) for c_ in counts)
+                        ok_sel = bool(one_based and full_cover)
+                    except (_NA, SyntaxError):
+                        ok_sel = False
     ctx.decide(ok_sel, "FLOW", CYL1 + ":on-axis", (h, app[0]) if app else h, "exactly the clusters containing the symmetry axis (radial slice starts at 0) are located, identified by their 1-based label",
                "the list of located clusters is not filled with the (1-based) label of exactly those clusters whose radial slice starts at 0")
     vol = [c for c in hv.calls() if (hv.callee(c) or "") in ("scipy.ndimage.sum_labels", "scipy.ndimage.sum")]
@@ -684,7 +731,15 @@ def check_cylindrical(ctx):
         ptxt, vtxt = U(cons[0].args[0]).replace(" ", ""), U(cons[0].args[1]).replace(" ", "")
         for e_txt, seq in elem.items():
             e_ = e_txt.replace(" ", "")
-            if seq in pos_names and ptxt in (f"np.array([0,0,{e_}[2]])", f"np.array([0.0,0.0,{e_}[2]])"):
+            # the z coordinates may be taken per row (p[2]) or as the column pos[:, 2] of the position array
+            col = None
+            try:
+                sx_ = hv.expand(ast.parse(seq, mode="eval").body, cons[0], stop=tuple(pos_names))
+                if isinstance(sx_, ast.Subscript) and isinstance(sx_.value, ast.Name) and sx_.value.id in pos_names and U(sx_.slice).replace(" ", "") in ("(:,2)", ":,2", "(:,-1)", ":,-1"):
+                    col = sx_.value.id
+            except SyntaxError:
+                pass
+            if (seq in pos_names and ptxt in (f"np.array([0,0,{e_}[2]])", f"np.array([0.0,0.0,{e_}[2]])")) or (col is not None and ptxt in (f"np.array([0,0,{e_}])", f"np.array([0.0,0.0,{e_}])")):
                 for e2, seq2 in elem.items():
                     if seq2 in vol_names and vtxt == e2.replace(" ", ""):
                         okk = True
